@@ -14,5 +14,23 @@ CHECKS = {
     },
 }
 
+CHECKS['C04'] = {
+    'level': 'Static evaluation of the declarations that define hand strength: rank orders, decks, the literal category sequence of every '
+             'lookup (_add_entries call sequence incl. loops over literal ranges), the attribute table of the 11 hand classes through the MRO; '
+             'path summaries of __lt__/__eq__/__hash__/__init__/has_entry/_get_key against spec terms.',
+    'note': 'Decides category order, rank conventions, low/high polarity, equality/hash basis and the validity gate for every hand of every type at once. '
+            'Does NOT decide the kicker order inside one category (produced by Lookup.__hash_multisets, an algorithm over thousands of classes; '
+            'no static argument in reach - the md5 tests pin it). Trusts the spec tables in pkstatic/rules/c04.py.',
+    'technique': 'static evaluation of lookup/hand declarations + operator path summaries vs spec terms',
+}
+CHECKS['C05'] = {
+    'level': 'Search-shape agreement: for every from_game implementation the enumerated collection, the class attribute used as combination size, '
+             'the arguments handed to super(), the polarity of the maximisation (siblings must agree), error discipline and the badugi '
+             'largest-first search are extracted from the path summaries and compared with the composition rule of each game.',
+    'note': 'Decides that the search ranges over exactly the legal combinations and keeps the strongest; optimality on concrete cards follows from that '
+            'plus the order decided in C04, as an argument, not as an enumeration of deals. Trusts itertools.combinations.',
+    'technique': 'path-sensitive summaries of the best-of searches vs composition-rule table',
+}
+
 ALL = [f'C{i:02d}' for i in range(1, 21)]
 NOT_APPLICABLE = {p: PENDING for p in ALL if p not in CHECKS}
